@@ -192,7 +192,7 @@ def make_case(rng, fmt, nops, canonical=None):
 def cases(tier, rng):
     G._tmp()    # scratch directory of the run: created in the parent, shared by the forked workers, removed at exit
     big = tier in ("thorough", "widen")
-    per = {"quick": 400, "thorough": 5000, "widen": 1500}[tier]
+    per = {"quick": 400, "thorough": 4000, "widen": 1500}[tier]
     L = 8 if big else 5
     fmts = ["bed", "bed6", "vcf", "sam", "fastq", "fasta2", "bam"]
     # fixed scenario family: cache / overlay interleavings around one concatenate
